@@ -71,18 +71,108 @@ Definition should_invalidate (t : table) (r : resource) (u : update) : bool :=
   else if u_err u then true
   else existsb (fun d => tester t (r_filter r) (fst d) || tester t (r_filter r) (snd d)) (u_deltas u).
 
+(** * RunPollLoop (binlog.go l.367-430): table versions and cached column maps
+
+    The events RunPollLoop takes from the syncer, in stream order.  A TableMapEvent with a table id
+    other than the one remembered for the table drops the table's cached column map; a rows event of
+    a registered table of our database is decoded with the cached map, which is built -- on a miss --
+    from the column list information_schema reports at that moment (getColumnMap / buildColumnMap);
+    everything else is skipped. *)
+Inductive pev : Type :=
+| PTableMap (db tbl : string) (id : Z)
+| PRows (db tbl : string) (k : ekind) (rows : list (list src))
+| POther.                                   (* XID, query, rotate, ... events: not looked at *)
+
+Record pstate : Type := mk_pstate {
+  p_versions : list (string * Z);          (* Binlog.tableVersions *)
+  p_cmaps : list (string * (Z * list Z))   (* Binlog.columnMaps: expectedColumns, source *)
+}.
+
+Definition pstate0 : pstate := mk_pstate [] [].
+
+Fixpoint sremove {A} (k : string) (l : list (string * A)) : list (string * A) :=
+  match l with
+  | [] => []
+  | (k', v) :: t => if String.eqb k k' then sremove k t else (k', v) :: sremove k t
+  end.
+
+Definition sset {A} (k : string) (v : A) (l : list (string * A)) : list (string * A) := (k, v) :: sremove k l.
+
+(** The answers of information_schema.columns, in the order RunPollLoop asks: table asked for, column
+    names by ordinal position. *)
+Definition answers : Type := list (string * list string).
+
+Inductive pout : Type :=
+| PSkip                    (* nothing is handed to the tracker *)
+| PUpdate (u : update)
+| PStuck.                  (* the model needs an information_schema answer that was not recorded (or one for another table) *)
+
+Definition out_of (o : option update) : pout := match o with Some u => PUpdate u | None => PSkip end.
+
+Definition poll_event (fixed : bool) (e : env) (database : string) (schema : list (string * table))
+           (st : pstate) (ans : answers) (ev : pev) : pstate * answers * pout :=
+  match ev with
+  | POther => (st, ans, PSkip)
+  | PTableMap db tbl id =>
+      if negb (String.eqb db database) then (st, ans, PSkip)
+      else
+        let same := match slookup tbl (p_versions st) with Some v => Z.eqb v id | None => false end in
+        if same then (st, ans, PSkip)
+        else (mk_pstate (sset tbl id (p_versions st)) (sremove tbl (p_cmaps st)), ans, PSkip)
+  | PRows db tbl k rows =>
+      if negb (String.eqb db database) then (st, ans, PSkip)
+      else
+        match slookup tbl schema with
+        | None => (st, ans, PSkip)           (* errNoDescriptor: not one of our tables *)
+        | Some t =>
+            match slookup tbl (p_cmaps st) with
+            | Some cm => (st, ans, out_of (poll_loop_update fixed e (t, fst cm, snd cm) tbl k rows))
+            | None =>
+                match ans with
+                | (asked, cols) :: ans' =>
+                    if String.eqb asked tbl then
+                      let cm := column_map t cols in
+                      (mk_pstate (p_versions st) (sset tbl cm (p_cmaps st)), ans',
+                       out_of (poll_loop_update fixed e (t, fst cm, snd cm) tbl k rows))
+                    else (st, ans, PStuck)
+                | [] => (st, ans, PStuck)
+                end
+            end
+        end
+  end.
+
+(** The whole stream: the updates handed to the tracker (through updateCh, in order), the answers left
+    over, and whether the model got stuck. *)
+Fixpoint poll_stream (fixed : bool) (e : env) (database : string) (schema : list (string * table))
+         (st : pstate) (ans : answers) (evs : list pev) : list update * answers * bool :=
+  match evs with
+  | [] => ([], ans, false)
+  | ev :: evs' =>
+      let '(st', ans', o) := poll_event fixed e database schema st ans ev in
+      match o with
+      | PStuck => ([], ans', true)
+      | PSkip => poll_stream fixed e database schema st' ans' evs'
+      | PUpdate u => let '(us, a, stuck) := poll_stream fixed e database schema st' ans' evs' in (u :: us, a, stuck)
+      end
+  end.
+
 (** * Correspondence: the tracker's observation points *)
 Inductive tev : Type :=
 | TAdd (rid : nat) (tbl : string) (f : filter)
 | TRemove (rid : nat)
 | TRead (rid : nat)      (* a live query's function issues its SELECT; rid = the resource this run registered (0 = none yet) *)
-| TProcess (tbl : string) (version : string) (k : ekind) (rows : list (list src)) (obs_err : bool) (obs : list (nat * bool)).
-    (* [version] names the version of the table (name#TableID) the event was written under: RunPollLoop drops
-       its cached column map on every TableMapEvent with a new id, so the column map in force is the one
-       information_schema gives for that version *)
+| TProcess (tbl : string) (obs_err : bool) (obs : list (nat * bool)).
+    (* dbTracker.processBinlog: the update's table, whether its err is set, shouldInvalidate of every resource *)
 
-(** [lc_tables]: the table metadata per version (name#TableID). *)
-Record lcase : Type := mk_lcase { lc_tables : list (string * tmeta); lc_trace : list tev }.
+(** One history: the registered struct tables, the event stream pushed into the syncer's channel, the
+    information_schema answers RunPollLoop got (in order), and the trace at the tracker. *)
+Record lcase : Type := mk_lcase {
+  lc_db : string;
+  lc_schema : list (string * table);
+  lc_stream : list pev;
+  lc_answers : answers;
+  lc_trace : list tev
+}.
 
 Fixpoint insert_res (r : resource) (l : list resource) : list resource :=
   match l with
@@ -93,31 +183,36 @@ Fixpoint insert_res (r : resource) (l : list resource) : list resource :=
 Definition verdicts_eqb (a b : list (nat * bool)) : bool :=
   list_eqb (fun x y => Nat.eqb (fst x) (fst y) && Bool.eqb (snd x) (snd y)) a b.
 
-Fixpoint replay (e : env) (tabs : list (string * tmeta)) (regs : list resource) (tr : list tev) : list nat :=
+(** [exp]: the updates the model's poll loop has queued for the tracker and the trace has not shown yet. *)
+Fixpoint replay (schema : list (string * table)) (exp : list update) (regs : list resource) (tr : list tev) : list nat :=
   match tr with
-  | [] => []
-  | TAdd rid tbl f :: tr' => replay e tabs (insert_res (mk_resource rid tbl f) regs) tr'
-  | TRemove rid :: tr' => replay e tabs (List.filter (fun r => negb (Nat.eqb (r_id r) rid)) regs) tr'
+  | [] => match exp with [] => [] | _ :: _ => [11] end      (* an update the model expects never reached the tracker *)
+  | TAdd rid tbl f :: tr' => replay schema exp (insert_res (mk_resource rid tbl f) regs) tr'
+  | TRemove rid :: tr' => replay schema exp (List.filter (fun r => negb (Nat.eqb (r_id r) rid)) regs) tr'
   | TRead rid :: tr' =>
       (* LiveDB.query registers the dependency before it runs the SELECT: [Read] is only enabled once the
          run's resource is in the tracker *)
-      (if existsb (fun r => Nat.eqb (r_id r) rid) regs then [] else [3]) ++ replay e tabs regs tr'
-  | TProcess tbl version k rows obs_err obs :: tr' =>
-      match slookup version tabs with
-      | None => [9]
-      | Some m =>
-          match poll_loop_update true e m tbl k rows with
+      (if existsb (fun r => Nat.eqb (r_id r) rid) regs then [] else [3]) ++ replay schema exp regs tr'
+  | TProcess tbl obs_err obs :: tr' =>
+      match exp with
+      | [] => [11] ++ replay schema [] regs tr'               (* an update the model's poll loop did not produce *)
+      | u :: exp' =>
+          (if String.eqb (u_table u) tbl then [] else [11]) ++
+          (if Bool.eqb (u_err u) obs_err then [] else [2]) ++
+          match slookup tbl schema with
           | None => [9]
-          | Some u =>
-              (if Bool.eqb (u_err u) obs_err then [] else [2]) ++
-              (if verdicts_eqb (map (fun r => (r_id r, should_invalidate (fst (fst m)) r u)) regs) obs then [] else [1])
-          end
-      end ++ replay e tabs regs tr'
+          | Some t =>
+              if verdicts_eqb (map (fun r => (r_id r, should_invalidate t r u)) regs) obs then [] else [1]
+          end ++ replay schema exp' regs tr'
+      end
   end.
 
 Definition dedup (l : list nat) : list nat := nodup Nat.eq_dec l.
 
-Definition check_lcase (e : env) (c : lcase) : list nat := dedup (replay e (lc_tables c) [] (lc_trace c)).
+Definition check_lcase (e : env) (c : lcase) : list nat :=
+  let '(us, rest, stuck) := poll_stream true e (lc_db c) (lc_schema c) pstate0 (lc_answers c) (lc_stream c) in
+  dedup ((if stuck then [10] else match rest with [] => [] | _ :: _ => [10] end) ++
+         replay (lc_schema c) us [] (lc_trace c)).
 
 Fixpoint live_mismatches (e : env) (cs : list (nat * lcase)) : list (nat * list nat) :=
   match cs with
